@@ -34,6 +34,22 @@ func main() {
 		}
 		return
 	}
+	if *prop == "globals" { // debugging aid: the mutable package-level state table used by the state-free rules
+		p, err := Load(LoadOpts{Root: *repo, GOOS: "linux", GOARCH: "amd64"})
+		if err != nil {
+			fmt.Println(err)
+			os.Exit(2)
+		}
+		var lines []string
+		for v, g := range p.mutableGlobals() {
+			lines = append(lines, fmt.Sprintf("%-60s %-18s x%d %s (%s)", globalName(v), g.Kind, g.Count, p.Pos(g.Pos), g.In))
+		}
+		sort.Strings(lines)
+		for _, l := range lines {
+			fmt.Println(l)
+		}
+		return
+	}
 	spec := registry[*prop]
 	if spec == nil {
 		fmt.Printf("unknown property %q\n", *prop)
@@ -73,7 +89,14 @@ func runProp(spec *propSpec, tier, repo, verif string, seed int) (code int) {
 			code = fail("checker-panic", fmt.Sprintf("%v\n%s", r, debug.Stack()))
 		}
 	}()
-	p, err := Load(LoadOpts{Root: repo, GOOS: "linux", GOARCH: "amd64", Full: spec.NeedSSA})
+	goos, goarch := "linux", "amd64"
+	if v := os.Getenv("GV_GOOS"); v != "" { // debugging aid: run the quick tier for another platform
+		goos = v
+	}
+	if v := os.Getenv("GV_GOARCH"); v != "" {
+		goarch = v
+	}
+	p, err := Load(LoadOpts{Root: repo, GOOS: goos, GOARCH: goarch, Full: spec.NeedSSA})
 	if err != nil {
 		return fail("load", err.Error())
 	}
